@@ -20,7 +20,7 @@ from engine.symex import Loader, PatchDoesNotApply
 
 MOD = 'props.C07_locks'
 BASE = '/locks/x.lck'
-VISIBLE = {'open', 'flock', 'stat', 'close', 'remove', 'enter'}
+VISIBLE = {'open', 'flock', 'stat', 'close', 'remove', 'enter', 'exists'}
 
 
 class NS(object):
@@ -115,7 +115,14 @@ def build_env(tape_ref, max_fail, patches=None):
         if o == 'enoent':
             raise OSError(2, 'no such file')
     lk.time = NS(time=s_time, sleep=s_sleep)
-    lk.os = NS(remove=s_remove, path=os.path)
+    def s_exists(p):
+        # (counts against the same failure budget as a failed flock, so that a polling loop on it stays finite)
+        outs = ['yes', 'no'] if fails['n'] < max_fail else ['no']
+        o = tape_ref[0].choose('exists:%d' % pidx(p), outs)
+        if o == 'yes':
+            fails['n'] += 1
+        return o == 'yes'
+    lk.os = NS(remove=s_remove, path=NS(exists=s_exists, join=os.path.join, dirname=os.path.dirname, basename=os.path.basename))
     lk.ensure_directory = lambda *a, **k: None
     return lk, lf
 
@@ -263,7 +270,13 @@ def replay_schedule(kind, sched, n=1, patches=None):
     lf.__dict__['__builtins__']['open'] = g_open
     lf.fcntl = NS(flock=g_flock, LOCK_EX=fcntl.LOCK_EX, LOCK_NB=fcntl.LOCK_NB)
     lf.os = NS(path=os.path, chmod=os.chmod, getpid=os.getpid, fstat=os.fstat, stat=g_stat, name=os.name)
-    lk.os = NS(remove=g_remove, path=os.path)
+    def g_exists(path):
+        gate.wait_turn(tls.tid, 'exists')
+        try:
+            return os.path.exists(path)
+        finally:
+            gate.done(tls.tid, 'exists')
+    lk.os = NS(remove=g_remove, path=NS(exists=g_exists, join=os.path.join, dirname=os.path.dirname, basename=os.path.basename))
     lk.time = NS(time=time.time, sleep=lambda s: time.sleep(0.001))
     path = os.path.join(d, 'x.lck')
     k = 1 + max(t for t, _, _ in vis_sched)
@@ -319,6 +332,29 @@ def replay_schedule(kind, sched, n=1, patches=None):
     return False, 'not reproduced on the real module (max inside %d; %s)' % (gate.max_inside, '; '.join(errors[:2]))
 
 
+def replay_free_lock(kind, n=1, patches=None):
+    """a lock nobody holds can be taken -- with and without a lock file left behind; True = violation reproduced"""
+    L = Loader(shadow=False, patches=patches)
+    L.load('mapproxy.util.ext.lockfile')
+    lk = L.load('mapproxy.util.lock')
+    d = tempfile.mkdtemp(prefix='verif-lock-')
+    try:
+        for leftover in (False, True):
+            path = os.path.join(d, 'free-%s.lck' % leftover)
+            if leftover:
+                for suffix in ([''] if kind != 'sem' else [str(i) for i in range(n)]):
+                    open(path + suffix, 'w').close()
+            l = lk.SemLock(path, n, timeout=0.3, step=0.05) if kind == 'sem' else lk.FileLock(path, timeout=0.3, step=0.05, remove_on_unlock=(kind == 'remove'))
+            try:
+                l.lock()
+                l.unlock()
+            except lk.LockTimeout:
+                return True, 'real module: LockTimeout on a lock nobody holds (lock file left behind: %s)' % leftover
+        return False, 'the real module takes a free lock with and without a left-over lock file'
+    finally:
+        shutil.rmtree(d, ignore_errors=True)
+
+
 # --------------------------------------------------------------------------- obligations
 def run_mutex(spec):
     a = spec['args']
@@ -358,7 +394,14 @@ def run_mutex(spec):
             out.update(status='unsat', detail='inductive invariant with %d conjuncts implies at most %d holder(s); re-acquisition holds; '
                                               'BMC to depth %d: %s' % (ninv, limit, T, r))
         else:
-            out.update(status='unknown', detail='mutual exclusion proved but re-acquisition query failed')
+            # the solver exhibits a state with nobody holding the lock from which a lone contender never gets in; the states
+            # of that kind a real history reaches are "file left behind" (holder died, or a keep-style holder released) and
+            # "no file": try both on the real module
+            ok4, detail4 = replay_free_lock(kind, n, patches)
+            if ok4:
+                out.update(status='sat', replayed=True, detail=detail4, cex=dict(kind=kind, free_lock_not_takeable=True))
+            else:
+                out.update(status='unknown', detail='mutual exclusion proved but re-acquisition query failed (%s)' % detail4)
         return out
     out.update(status='unknown', detail='no schedule up to T=%d (%s) but the inferred invariant does not imply the property (%s)' % (T, r, verdict))
     return out
@@ -456,6 +499,9 @@ def run_witness(spec):
 
 def replay(body):
     c = body['cex']
+    if c.get('free_lock_not_takeable'):
+        patches = {m: [tuple(x) for x in lst] for m, lst in (body['args'].get('patches') or {}).items()} or None
+        return replay_free_lock(c['kind'], body['args'].get('n', 1), patches)
     sched = []
     for lab in c['schedule']:
         if lab[0] == 'env':
